@@ -15,7 +15,7 @@ def SameFor (stmt : Nat) (h h' : HState) : Prop := h.enter stmt = h'.enter stmt
 
 def Sim (w w' : WState) : Prop :=
   w.stmt = w'.stmt ∧ w.working = w'.working ∧ w.pattern = w'.pattern ∧
-  SameFor w.stmt w.hs w'.hs ∧ SameFor w.stmt w.hp w'.hp ∧ SameFor w.stmt w.ho w'.ho
+  SameFor w.stmt w.hs w'.hs ∧ SameFor w.stmt w.hp w'.hp ∧ SameFor w.stmt w.ho w'.ho ∧ w.order = w'.order
 
 theorem enter_enter (h : HState) (s : Nat) : (h.enter s).enter s = h.enter s := by
   unfold HState.enter
@@ -28,15 +28,25 @@ theorem sameFor_after (stmt : Nat) (h h' : HState) (l : Option HK) (hs : SameFor
 
 theorem wstep_sim {w w' : WState} (h : Sim w w') (e : HEv) :
     (wstep w e = none ∧ wstep w' e = none) ∨ ∃ v v', wstep w e = some v ∧ wstep w' e = some v' ∧ Sim v v' := by
-  obtain ⟨h1, h2, h3, h4, h5, h6⟩ := h
+  obtain ⟨h1, h2, h3, h4, h5, h6, h7⟩ := h
   cases e with
-  | init => exact Or.inr ⟨_, _, rfl, rfl, h1, rfl, h3, h4, h5, h6⟩
+  | init => exact Or.inr ⟨_, _, rfl, rfl, h1, rfl, h3, h4, h5, h6, h7⟩
+  | orderCheck =>
+    simp only [wstep]
+    rw [← h7]
+    cases orderCheck w.order with
+    | none => exact Or.inl ⟨rfl, rfl⟩
+    | some o => exact Or.inr ⟨_, _, rfl, rfl, h1, h2, h3, h4, h5, h6, rfl⟩
   | next =>
-    refine Or.inr ⟨_, _, rfl, rfl, h1, rfl, ?_, h4, h5, h6⟩
+    refine Or.inr ⟨_, _, rfl, rfl, h1, rfl, ?_, h4, h5, h6, h7⟩
     simp only [h2, h3]
   | tok part tk =>
     cases part with
-    | none => exact Or.inr ⟨_, _, rfl, rfl, h1, h2, h3, h4, h5, h6⟩
+    | none => exact Or.inr ⟨_, _, rfl, rfl, h1, h2, h3, h4, h5, h6, h7⟩
+    | order =>
+      refine Or.inr ⟨_, _, rfl, rfl, h1, h2, h3, h4, h5, h6, ?_⟩
+      show orderStep w.order tk = orderStep w'.order tk
+      rw [h7]
     | subj =>
       simp only [wstep]
       have e1 : w.hs.enter w.stmt = w'.hs.enter w'.stmt := by rw [← h1]; exact h4
@@ -44,7 +54,7 @@ theorem wstep_sim {w w' : WState} (h : Sim w w') (e : HEv) :
       cases hstep : subjStep w.working (w.hs.enter w.stmt).last tk with
       | none => exact Or.inl ⟨rfl, rfl⟩
       | some r =>
-        refine Or.inr ⟨_, _, rfl, rfl, h1, rfl, h3, ?_, h5, h6⟩
+        refine Or.inr ⟨_, _, rfl, rfl, h1, rfl, h3, ?_, h5, h6, h7⟩
         show SameFor w.stmt _ _
         unfold SameFor; rw [← h1]
     | pred =>
@@ -54,7 +64,7 @@ theorem wstep_sim {w w' : WState} (h : Sim w w') (e : HEv) :
       cases hstep : predStep w.working (w.hp.enter w.stmt).last tk with
       | none => exact Or.inl ⟨rfl, rfl⟩
       | some r =>
-        refine Or.inr ⟨_, _, rfl, rfl, h1, rfl, h3, h4, ?_, h6⟩
+        refine Or.inr ⟨_, _, rfl, rfl, h1, rfl, h3, h4, ?_, h6, h7⟩
         show SameFor w.stmt _ _
         unfold SameFor; rw [← h1]
     | obj =>
@@ -64,7 +74,7 @@ theorem wstep_sim {w w' : WState} (h : Sim w w') (e : HEv) :
       cases hstep : objStep w.working (w.ho.enter w.stmt).last tk with
       | none => exact Or.inl ⟨rfl, rfl⟩
       | some r =>
-        refine Or.inr ⟨_, _, rfl, rfl, h1, rfl, h3, h4, h5, ?_⟩
+        refine Or.inr ⟨_, _, rfl, rfl, h1, rfl, h3, h4, h5, ?_, h7⟩
         show SameFor w.stmt _ _
         unfold SameFor; rw [← h1]
 
@@ -88,7 +98,7 @@ theorem hooks_stateless (stmt : Nat) (hs hp ho hs' hp' ho' : HState)
     (wrun { stmt := stmt, hs := hs, hp := hp, ho := ho } evs).map (·.pattern) =
     (wrun { stmt := stmt, hs := hs', hp := hp', ho := ho' } evs).map (·.pattern) := by
   apply wrun_sim
-  refine ⟨rfl, rfl, rfl, ?_, ?_, ?_⟩ <;> unfold SameFor HState.enter <;> simp [*]
+  refine ⟨rfl, rfl, rfl, ?_, ?_, ?_, rfl⟩ <;> unfold SameFor HState.enter <;> simp [*]
 
 end BW.Proofs.Hooks
 
